@@ -73,12 +73,6 @@ theorem le_maxBelow (rk : Nat → Nat) : ∀ n w, w < n → rk w ≤ maxBelow rk
     · subst hw; omega
     · have := ih w (by omega); omega
 
-theorem st_some_lt {s : St} {u : Nat} {x : TState} (h : s.st u = some x) : u < s.states.length := by
-  unfold St.st at h
-  rcases Nat.lt_or_ge u s.states.length with h' | h'
-  · exact h'
-  · rw [List.getElem?_eq_none h'] at h; cases h
-
 /-- A successful run can be replayed on its final store. -/
 theorem runProg_reads {f : Nat → St → Res} (hm : ∀ t s, Mono s (f t s).2)
     (hd : ∀ t s v s1, f t s = (.ok v, s1) → s1.st t = some (.done v)) :
